@@ -11,7 +11,7 @@ import (
 // Nothing here calls thunder. The text-matching semantics are restated from
 // doc/pagination.md, CHANGELOG ("filtering is case-insensitive") and the
 // intent recorded in internal/filter's tests:
-//   * the filter text is split at white space into words; a double-quoted
+//   * the filter text is split at ASCII white space (space, \t, \n, \f, \r) into words; a double-quoted
 //     phrase is one token (and may contain white space);
 //   * an element passes when ANY non-empty token is a case-insensitive
 //     substring of ANY of the considered filter fields' texts;
@@ -26,13 +26,21 @@ type mItem struct {
 	attr Attr
 }
 
+// isSep: the characters that separate tokens. internal/filter splits with the
+// regexp class \s, which (RE2) is exactly tab, newline, form feed, carriage
+// return and space. Every other rune — including vertical tab, NBSP U+00A0,
+// U+0085, U+1680, U+2003, U+2028, U+3000 — is an ordinary token character.
+func isSep(r rune) bool {
+	return r == ' ' || r == '\t' || r == '\n' || r == '\f' || r == '\r'
+}
+
 // tokenize splits a filter text. ok=false when the text is outside the
 // documented shapes (word glued to a quoted phrase, unterminated quote).
 func tokenize(text string) (tokens []string, ok bool) {
 	rs := []rune(text)
 	i := 0
 	for i < len(rs) {
-		if unicode.IsSpace(rs[i]) {
+		if isSep(rs[i]) {
 			i++
 			continue
 		}
@@ -46,13 +54,13 @@ func tokenize(text string) (tokens []string, ok bool) {
 			}
 			tokens = append(tokens, string(rs[i+1:j]))
 			i = j + 1
-			if i < len(rs) && !unicode.IsSpace(rs[i]) {
+			if i < len(rs) && !isSep(rs[i]) {
 				return nil, false // glued
 			}
 			continue
 		}
 		j := i
-		for j < len(rs) && !unicode.IsSpace(rs[j]) {
+		for j < len(rs) && !isSep(rs[j]) {
 			if rs[j] == '"' {
 				return nil, false // glued
 			}
